@@ -6,6 +6,7 @@ import (
 	"go/constant"
 	"go/token"
 	"go/types"
+	"strconv"
 	"strings"
 )
 
@@ -27,10 +28,13 @@ func checkC12(r *Run) {
 	}
 	res := m.resolver(tv)
 	recv := tv.Decl.Recv.List[0].Names[0].Name
-	maxLen, _ := r.L.pkgConst("p9", "maximumLength")
-	hsv, _ := r.L.pkgConst("p9", "highestSupportedVersion")
-	r.check(maxLen == 4*1024*1024, "r3", "maximumLength", token.NoPos, "4 MiB", fmt.Sprintf("maximumLength = %d, the property's bound is 4 MiB", maxLen))
-	r.check(hsv == 7, "r3", "highestSupportedVersion", token.NoPos, "7", fmt.Sprintf("highestSupportedVersion = %d, the property says 7", hsv))
+	// the variable that receives the requested version number (second result of parseVersion)
+	reqVer := ""
+	for _, s := range m.callsIn(tv, "p9.parseVersion") {
+		if as, ok := r.L.parent(s.Call).(*ast.AssignStmt); ok && len(as.Lhs) == 3 {
+			reqVer = res.str(as.Lhs[1])
+		}
+	}
 
 	// unknown literal
 	unknownVar := ""
@@ -143,16 +147,16 @@ func checkC12(r *Run) {
 		if msE == nil || vE == nil {
 			r.undecided("r3", "success reply", successRet.Pos(), "the success reply is not a &rversion{MSize:…, Version:…} literal")
 		} else {
-			okM, whyM := clampShape(r, info, tv, msE, recv+".MSize", "maximumLength")
-			r.check(okM, "r3", "reply msize = min(requested, 4 MiB)", msE.Pos(), whyM, whyM)
+			okM, whyM := clampHolds(r.L, res, tv, msE, clampSpec{Src: recv + ".MSize", LimitVal: 4 << 20, Pkg: "p9"})
+			r.check(okM, "r3", "reply msize = min(requested, 4 MiB)", msE.Pos(), res.str(msE)+" "+whyM, "the announced msize "+r.L.str(msE)+" "+whyM)
 			// Version: versionString(baseVersion, version) with version clamped
 			vc, _ := unparen(vE).(*ast.CallExpr)
 			if vc == nil || calleeKey(info, vc) != "p9.versionString" || len(vc.Args) != 2 {
 				r.fail("r3", "reply version is formatted by versionString", vE.Pos(), "the reply's version string is %s, not versionString(base, clamped version): it need not be in canonical spelling", r.L.str(vE))
 			} else {
 				r.ok("r3", "reply version is formatted by versionString", vE.Pos(), "canonical spelling through versionString")
-				okV, whyV := clampShape(r, info, tv, vc.Args[1], "reqVersion", "highestSupportedVersion")
-				r.check(okV, "r3", "reply version = min(requested, 7)", vc.Args[1].Pos(), whyV, whyV)
+				okV, whyV := clampHolds(r.L, res, tv, vc.Args[1], clampSpec{Src: reqVer, LimitVal: 7, Pkg: "p9"})
+				r.check(okV && reqVer != "", "r3", "reply version = min(requested, 7)", vc.Args[1].Pos(), r.L.str(vc.Args[1])+" "+whyV, "the announced version "+r.L.str(vc.Args[1])+" "+whyV)
 				// base version is the requested .L
 				_ = res
 			}
@@ -217,168 +221,155 @@ func isRversionLit(info *types.Info, e ast.Expr, pred func(msize, version ast.Ex
 	return ms != nil && v != nil && pred(ms, v)
 }
 
-// clampShape: e is a variable whose definitions are {src, limit under src > limit} (or min(src, limit)).
-func clampShape(r *Run, info *types.Info, fi *FuncInfo, e ast.Expr, src, limit string) (bool, string) {
-	e = unparen(e)
-	if c, ok := e.(*ast.CallExpr); ok {
-		if id, ok := c.Fun.(*ast.Ident); ok && id.Name == "min" && len(c.Args) == 2 {
-			a, b := r.L.str(c.Args[0]), r.L.str(c.Args[1])
-			if (a == src && b == limit) || (a == limit && b == src) {
-				return true, "min(" + src + ", " + limit + ")"
-			}
-		}
-	}
-	obj := objOf(info, e)
-	if obj == nil {
-		return false, r.L.str(e) + " is not a clamped variable"
-	}
-	type def struct {
-		rhs  string
-		cond string
-		pol  bool
-		pos  token.Pos
-	}
-	var defs []def
-	ast.Inspect(fi.Decl.Body, func(n ast.Node) bool {
-		as, ok := n.(*ast.AssignStmt)
-		if !ok || len(as.Lhs) != len(as.Rhs) {
-			return true
-		}
-		for i, l := range as.Lhs {
-			if objOf(info, l) != obj {
-				continue
-			}
-			d := def{rhs: r.L.str(as.Rhs[i]), pos: as.Pos()}
-			// enclosing if
-			var cur ast.Node = as
-			for p := r.L.parent(cur); p != nil; p = r.L.parent(p) {
-				if ifs, ok := p.(*ast.IfStmt); ok {
-					d.cond = strings.ReplaceAll(r.L.str(ifs.Cond), " ", "")
-					d.pol = containsNode(ifs.Body, as)
-					break
-				}
-				if _, ok := p.(*ast.FuncDecl); ok {
-					break
-				}
-				if _, ok := p.(*ast.FuncLit); ok {
-					break
-				}
-			}
-			defs = append(defs, d)
-		}
-		return true
-	})
-	over := src + ">" + limit
-	var hasSrc, hasLimit bool
-	for _, d := range defs {
-		switch {
-		case d.rhs == src && (d.cond == "" || d.cond == over && !d.pol || !strings.Contains(d.cond, ">")):
-			hasSrc = true
-		case d.rhs == limit && d.cond == over && d.pol:
-			hasLimit = true
-		case d.rhs == limit && (d.cond == r.L.str(e)+">"+limit) && d.pol:
-			hasLimit = true
-		default:
-			return false, fmt.Sprintf("%s is assigned %s under condition %q (taken=%v): not the clamp %s = min(%s, %s)", r.L.str(e), d.rhs, d.cond, d.pol, r.L.str(e), src, limit)
-		}
-	}
-	if hasSrc && hasLimit {
-		return true, fmt.Sprintf("%s = %s, replaced by %s exactly under %s > %s", r.L.str(e), src, limit, src, limit)
-	}
-	return false, fmt.Sprintf("%s is not clamped: definitions %v", r.L.str(e), defs)
-}
-
 func c12Spelling(r *Run, m *ServerModel) {
 	info := m.Info
+	db := m.DB
 	vs := r.mustFunc("r4", "p9", "versionString")
 	pv := r.mustFunc("r4", "p9", "parseVersion")
 	if vs == nil || pv == nil {
 		return
 	}
-	// versionString
+	// versionString: classify its exits by the fact "version == 0".
+	vres := newResolver(r.L, info, vs.Decl)
 	format := ""
 	zeroBase := false
 	uint32Arg := false
-	ast.Inspect(vs.Decl.Body, func(n ast.Node) bool {
-		switch v := n.(type) {
-		case *ast.CallExpr:
-			if calleeKey(info, v) == "fmt.Sprintf" && len(v.Args) == 2 {
-				if sv := constValue(info, v.Args[0]); sv != nil && sv.Kind() == constant.String {
-					format = constant.StringVal(sv)
-				}
-				if t := info.TypeOf(v.Args[1]); t != nil && t.String() == "uint32" {
-					uint32Arg = true
-				}
-			}
-		case *ast.IfStmt:
-			if strings.ReplaceAll(r.L.str(v.Cond), " ", "") == "version==0" && len(v.Body.List) == 1 {
-				if ret, ok := v.Body.List[0].(*ast.ReturnStmt); ok && len(ret.Results) == 1 && r.L.str(ret.Results[0]) == "string(baseVersion)" {
-					zeroBase = true
+	verParam, baseParam := "", ""
+	if ps := vs.Decl.Type.Params.List; len(ps) > 0 {
+		for _, f := range ps {
+			for _, nm := range f.Names {
+				if t := info.TypeOf(nm); t != nil && t.String() == "uint32" {
+					verParam = nm.Name
+				} else {
+					baseParam = nm.Name
 				}
 			}
 		}
-		return true
-	})
+	}
+	for _, ex := range db.Exits[vs] {
+		if ex.Fn != ast.Node(vs.Decl) || ex.St.Dead || ex.Ret == nil || len(ex.Ret.Results) != 1 {
+			continue
+		}
+		res := unparen(ex.Ret.Results[0])
+		if ex.St.holds(verParam+" == 0", true) {
+			zeroBase = vres.str(res) == "string("+baseParam+")"
+			continue
+		}
+		if !ex.St.holds(verParam+" == 0", false) {
+			continue
+		}
+		// follow a single-assignment local to the call
+		if id, ok := res.(*ast.Ident); ok {
+			if d := vres.defs[objOf(info, id)]; d != nil {
+				res = unparen(d)
+			}
+		}
+		if call, ok := res.(*ast.CallExpr); ok && calleeKey(info, call) == "fmt.Sprintf" && len(call.Args) == 2 {
+			if sv := constValue(info, call.Args[0]); sv != nil && sv.Kind() == constant.String {
+				format = constant.StringVal(sv)
+			}
+			if t := info.TypeOf(call.Args[1]); t != nil && t.String() == "uint32" && vres.str(call.Args[1]) == verParam {
+				uint32Arg = true
+			}
+		}
+	}
 	r.check(zeroBase, "r4", "versionString: version 0 is the plain base version", vs.Decl.Pos(), "version == 0 → string(baseVersion)", "version 0 is not spelled as the bare base version string (\"9P2000.L\")")
 	segs := strings.Split(format, ".")
-	r.check(len(segs) == 4 && segs[3] == "%d" && uint32Arg, "r4", "versionString: format", vs.Decl.Pos(), "format "+format+" with a uint32 argument", "format is "+fmt.Sprintf("%q", format)+": expected three constant segments and %d of a uint32")
+	r.check(len(segs) == 4 && segs[3] == "%d" && uint32Arg, "r4", "versionString: format", vs.Decl.Pos(), "format "+format+" with a uint32 argument", "format is "+fmt.Sprintf("%q", format)+": expected three constant segments and %d of the uint32 version")
 	// base version constant
-	if bv, ok := r.L.pkgConstString("p9", "version9P2000L"); ok && len(segs) == 4 {
+	bv, _ := r.L.pkgConstString("p9", "version9P2000L")
+	if len(segs) == 4 {
 		r.check(bv == segs[0]+"."+segs[1], "r4", "versionString: base of the format is version9P2000L", vs.Decl.Pos(), bv, "the format starts with "+segs[0]+"."+segs[1]+" but version9P2000L is "+bv)
 	}
-	// parseVersion: literals compared with substr[i]
-	lits := map[int]string{}
-	nsegs := int64(-1)
-	emptyNumCheck := false
+
+	// parseVersion: the facts that hold where a numbered version is accepted.
+	pres := newResolver(r.L, info, pv.Decl)
+	strParam := ""
+	if ps := pv.Decl.Type.Params.List; len(ps) == 1 && len(ps[0].Names) == 1 {
+		strParam = ps[0].Names[0].Name
+	}
+	split := ""
+	var numObj, errObj types.Object
 	parseArgs := ""
-	plain := map[string]string{}
 	ast.Inspect(pv.Decl.Body, func(n ast.Node) bool {
 		switch v := n.(type) {
-		case *ast.BinaryExpr:
-			if v.Op == token.NEQ || v.Op == token.EQL {
-				if ix, ok := unparen(v.X).(*ast.IndexExpr); ok {
-					if i, ok := constInt(info, ix.Index); ok {
-						if sv := constValue(info, v.Y); sv != nil && sv.Kind() == constant.String {
-							lits[int(i)] = constant.StringVal(sv)
-						}
-					}
-				}
-				xs := strings.ReplaceAll(r.L.str(v.X), " ", "")
-				if strings.HasPrefix(xs, "len(substr)") || strings.HasPrefix(xs, "len(") && strings.HasSuffix(xs, ")") && !strings.Contains(xs, "[") {
-					if c, ok := constInt(info, v.Y); ok && v.Op == token.NEQ {
-						nsegs = c
-					}
-				}
-				if strings.HasPrefix(xs, "len(") && strings.Contains(xs, "[3]") {
-					if c, ok := constInt(info, v.Y); ok && c == 0 && v.Op == token.EQL {
-						emptyNumCheck = true
-					}
-				}
-			}
 		case *ast.CallExpr:
-			if calleeKey(info, v) == "strconv.ParseUint" && len(v.Args) == 3 {
-				parseArgs = r.L.str(v.Args[0]) + "," + r.L.str(v.Args[1]) + "," + r.L.str(v.Args[2])
+			if calleeKey(info, v) == "strings.Split" && len(v.Args) == 2 && pres.str(v.Args[0]) == strParam {
+				if sv := constValue(info, v.Args[1]); sv != nil && sv.Kind() == constant.String && constant.StringVal(sv) == "." {
+					split = pres.str(v)
+				}
 			}
-		case *ast.CaseClause:
-			for _, e := range v.List {
-				if sv := constValue(info, e); sv != nil && sv.Kind() == constant.String && len(v.Body) == 1 {
-					if ret, ok := v.Body[0].(*ast.ReturnStmt); ok {
-						plain[constant.StringVal(sv)] = r.L.str(ret)
-					}
+		case *ast.AssignStmt:
+			if len(v.Rhs) == 1 && len(v.Lhs) == 2 {
+				if call, ok := unparen(v.Rhs[0]).(*ast.CallExpr); ok && calleeKey(info, call) == "strconv.ParseUint" && len(call.Args) == 3 {
+					numObj, errObj = objOf(info, v.Lhs[0]), objOf(info, v.Lhs[1])
+					base, _ := constInt(info, call.Args[1])
+					bits, _ := constInt(info, call.Args[2])
+					parseArgs = fmt.Sprintf("%s,%d,%d", pres.str(call.Args[0]), base, bits)
 				}
 			}
 		}
 		return true
 	})
-	if len(segs) == 4 {
-		okLits := lits[0] == segs[0] && lits[1] == segs[1] && lits[2] == segs[2]
-		r.check(okLits, "r4", "parseVersion compares the segments versionString writes", pv.Decl.Pos(), fmt.Sprintf("%q.%q.%q", lits[0], lits[1], lits[2]),
-			fmt.Sprintf("parseVersion compares segments %q, %q, %q but versionString writes %q, %q, %q: a canonical string would not parse back", lits[0], lits[1], lits[2], segs[0], segs[1], segs[2]))
+	r.check(split != "", "r4", "parseVersion splits its argument at '.'", pv.Decl.Pos(), split, "no strings.Split("+strParam+", \".\") found")
+	name := func(o types.Object) string {
+		if o == nil {
+			return "?"
+		}
+		if u, ok := pres.uniq[o]; ok {
+			return u
+		}
+		return o.Name()
 	}
-	r.check(nsegs == 4, "r4", "parseVersion requires exactly 4 segments", pv.Decl.Pos(), "len(substr) != 4 → reject", fmt.Sprintf("segment count check is %d", nsegs))
-	r.check(emptyNumCheck, "r4", "parseVersion rejects an empty number", pv.Decl.Pos(), "len(substr[3]) == 0 → reject", "an empty version number is not rejected")
-	r.check(strings.HasSuffix(parseArgs, "[3],10,32"), "r4", "parseVersion parses a decimal uint32", pv.Decl.Pos(), "ParseUint(substr[3], 10, 32)", "the number is parsed with ParseUint("+parseArgs+"): must be base 10, 32 bits to mirror %d of a uint32")
-	r.check(strings.Contains(plain["9P2000.L"], "version9P2000L, 0, true"), "r4", "parseVersion: \"9P2000.L\" is version 0", pv.Decl.Pos(), "(version9P2000L, 0, true)", "\"9P2000.L\" parses to "+plain["9P2000.L"])
+	// eq reports the polarity of the fact "a == b" (either operand order) on every path.
+	eq := func(st *HState, a, b string, pol bool) bool {
+		return st.holds(a+" == "+b, pol) || st.holds(b+" == "+a, pol)
+	}
+	numbered, plainL := 0, false
+	for _, ex := range db.Exits[pv] {
+		if ex.Fn != ast.Node(pv.Decl) || ex.St.Dead || ex.Ret == nil || len(ex.Ret.Results) != 3 {
+			continue
+		}
+		okv := constValue(info, ex.Ret.Results[2])
+		if okv == nil || okv.Kind() != constant.Bool || !constant.BoolVal(okv) {
+			continue
+		}
+		basev := constValue(info, ex.Ret.Results[0])
+		isL := basev != nil && basev.Kind() == constant.String && constant.StringVal(basev) == bv
+		if c, isConst := constInt(info, ex.Ret.Results[1]); isConst {
+			// plain dialect names
+			if eq(ex.St, strParam, strconv.Quote(bv), true) || eq(ex.St, strParam, "version9P2000L", true) || eq(ex.St, strParam, "string(version9P2000L)", true) {
+				plainL = isL && c == 0
+			}
+			continue
+		}
+		numbered++
+		key := fmt.Sprintf("parseVersion numbered accept #%d", numbered)
+		r.check(isL, "r4", key+": base is 9P2000.L", ex.Ret.Pos(), "returns version9P2000L", "a numbered version is accepted with base "+r.L.str(ex.Ret.Results[0]))
+		if split == "" {
+			continue
+		}
+		nseg := ex.St.holds("len("+split+") == 4", true)
+		r.check(nseg, "r4", "parseVersion requires exactly 4 segments", ex.Ret.Pos(), "len("+split+") == 4 on the accepting path", "a numbered version is accepted without the segment count having been compared with 4 (facts: "+describePaths(ex.St)+")")
+		if len(segs) == 4 {
+			var missing []string
+			for i := 0; i < 3; i++ {
+				if !eq(ex.St, fmt.Sprintf("%s[%d]", split, i), strconv.Quote(segs[i]), true) {
+					missing = append(missing, fmt.Sprintf("segment %d == %q", i, segs[i]))
+				}
+			}
+			r.check(len(missing) == 0, "r4", "parseVersion compares the segments versionString writes", ex.Ret.Pos(), fmt.Sprintf("%q.%q.%q", segs[0], segs[1], segs[2]),
+				"versionString writes "+format+" but the accepting path of parseVersion does not establish "+strings.Join(missing, ", ")+" (facts: "+describePaths(ex.St)+")")
+		}
+		last := split + "[3]"
+		nonEmpty := ex.St.holds("len("+last+") == 0", false) || eq(ex.St, last, `""`, false) || ex.St.holds("len("+last+") > 0", true)
+		r.check(nonEmpty, "r4", "parseVersion rejects an empty number", ex.Ret.Pos(), "len("+last+") != 0 on the accepting path", "an empty version number is not rejected")
+		r.check(parseArgs == last+",10,32", "r4", "parseVersion parses a decimal uint32", ex.Ret.Pos(), "ParseUint("+last+", 10, 32)", "the number is parsed with ParseUint("+parseArgs+"): must be the fourth segment, base 10, 32 bits to mirror %d of a uint32")
+		r.check(eq(ex.St, name(errObj), "nil", true), "r4", "parseVersion rejects a number that does not parse", ex.Ret.Pos(), name(errObj)+" == nil on the accepting path", "a numbered version is accepted without ParseUint's error having been tested")
+		r.check(pres.str(ex.Ret.Results[1]) == "uint32("+name(numObj)+")", "r4", "parseVersion returns the parsed number", ex.Ret.Pos(), pres.str(ex.Ret.Results[1]), "the accepted version number is "+pres.str(ex.Ret.Results[1])+", not the parsed value")
+	}
+	r.check(numbered >= 1, "r4", "parseVersion accepts numbered versions", pv.Decl.Pos(), fmt.Sprintf("%d accepting exit(s)", numbered), "no exit of parseVersion accepts a numbered version")
+	r.check(plainL, "r4", "parseVersion: \"9P2000.L\" is version 0", pv.Decl.Pos(), "(version9P2000L, 0, true)", "the bare string \"9P2000.L\" does not parse to (version9P2000L, 0, true)")
 }
 
 func c12Client(r *Run, m *ServerModel) {
